@@ -88,6 +88,8 @@ class Extractor:
                     isinstance(s.value, ast.Call) and isinstance(s.value.func, ast.Attribute) and s.value.func.attr == "_replace" \
                     and U(s.value.func.value) == s.targets[0].id and not s.value.args:
                 out.append(("rebind", s.targets[0].id, {k.arg: (U(k.value), k.value) for k in s.value.keywords if k.arg}, s))
+            elif isinstance(s, ast.Assign) and len(s.targets) == 1 and isinstance(s.targets[0], ast.Name) and s.targets[0].id in getattr(self, "params", ()):
+                out.append(("paramassign", s.targets[0].id, U(s.value), s))
             elif isinstance(s, ast.Expr) and isinstance(s.value, ast.Constant):
                 pass
             elif isinstance(s, ast.Pass):
@@ -97,7 +99,12 @@ class Extractor:
         return out
 
     def of_method(self, name):
-        return self.extract(body_without_doc(self.methods[name]))
+        fn = self.methods[name]
+        self.params = {a.arg for a in fn.args.args if a.arg != "self"}
+        try:
+            return self.extract(body_without_doc(fn))
+        finally:
+            self.params = set()
 
 
 def negate(cond):
